@@ -13,6 +13,7 @@ def shape_bare_denials_go_through_authority : Bool := true
 def shape_cd_fetch_only_before_explicit_validation : Bool := true
 def shape_dname_target_ad_anded_whatever_the_target_carries : Bool := true
 def shape_key_fetch_is_validated : Bool := true
+def shape_private_lookup_keyed_on_request_cd : Bool := true
 def shape_root_ds_from_anchors_answer : Bool := true
 def shape_root_ds_from_anchors_authority : Bool := true
 def shape_signer_checked_before_findds_answer : Bool := true
